@@ -73,8 +73,9 @@ def effective(ds):
     return [ds[0], ds[1]]
 
 
-def suite_texts(ctx, exe, texts, suite):
-    raws = vlib.run_impl('datafn.text', texts, par=par_for(len(texts)))
+def suite_texts(ctx, exe, texts, suite, line_maxlen=99):
+    raws = vlib.run_impl('datafn.text', [[t, len(t) <= line_maxlen] for t in texts],
+                         par=par_for(len(texts)))
     mouts = vlib.run_model(exe, [[1, t] for t in texts])
     nkeys = set()
     for t, raw, mo in zip(texts, raws, mouts):
@@ -125,6 +126,9 @@ def suite_texts(ctx, exe, texts, suite):
                         'spec': [show_items(s_eff[0]), show_str(s_eff[1])]}, True)
 
         # (3) the whole line
+        if 'line' not in raw:
+            continue
+        ctx.bump('text-line-rule-run')
         ln = raw['line']
         i_ln = ['ok', ln[2]] if ln[0] == 'ok' else ['syntax']
         if m_raw is not None:
@@ -157,9 +161,9 @@ def suite_texts(ctx, exe, texts, suite):
                         'impl': [i_ln[0]] + [show_items(x) for x in i_ln[1:]],
                         'spec': [want[0]] + [show_items(x) for x in want[1:]]}, True)
     ctx.count(suite, len(texts), [('t', k) for k in nkeys])
-    if texts:
-        for t in (texts[len(texts) // 2], texts[len(texts) // 3]):
-            ctx.sample({'suite': suite, 'case': 'DATA ' + t})
+    shown = [t for t in texts[len(texts) // 2::97] if text_kind(t).count('+') >= 2][:2]
+    for t in shown or texts[:1]:
+        ctx.sample({'suite': suite, 'case': 'DATA ' + t})
 
 
 # ---------------------------------------------------------------------------
@@ -553,7 +557,7 @@ def build_programs(tier):
             style, pos, ps = STYLES[h % 3], POSS[(h // 3) % 3], (h // 9) % 4 == 0
             single = (h // 1296) % 4 == 0
             two = [CONFIGS[(h // 36) % 6], CONFIGS[((h // 36) + 3 + (h // 216) % 2) % 6]]
-            cfgs = two[:1] if quick else two if not in_quick else CONFIGS
+            cfgs = two[:1] if (quick or not in_quick) else CONFIGS
             for (lv, dbg) in cfgs:
                 add(lay, sname, script, lv, dbg, style, pos, ps, single)
             if not quick and in_quick and (sname in ('all-cycle', 'bare-mid') or sname.startswith('label-')):
@@ -598,30 +602,37 @@ def main(tier, seed):
     maxlen = 5 if quick else 7
     texts = list(all_texts(maxlen))
     ctx.rule.append(f'A: every text over the 6 characters {{a 1 blank , " :}} of length <= {maxlen} '
-                    f'({len(texts)}), each through the real parse_data, the real data_stmt rule and '
-                    f'the real line rule; non-trivial = distinct specification outcome (items, rest, flags)')
+                    f'({len(texts)}), each through the real parse_data and the real data_stmt rule, '
+                    f'those of length <= 6 also through the real line rule; non-trivial = distinct specification outcome (items, rest, flags)')
     walls = ctx.extra.setdefault('suite_wall_s', {'build': round(time.time() - ctx.t0, 1)})
     t = time.time()
-    suite_texts(ctx, exe, texts, 'texts')
+    suite_texts(ctx, exe, texts, 'texts', line_maxlen=6)
     walls['texts'] = round(time.time() - t, 1)
-    ctx.extra['exhaustive'] = True
+    ctx.extra['exhaustive_suites'] = ['texts (all texts up to the length bound)', 'programs (all layouts up to the bounds)']
 
     # ---- B: device
-    L = 4 if quick else 6
-
     def seqs(alpha, n):
         return [list(s) for s in itertools.product(alpha, repeat=n)]
-    full, short = seqs(OPS, L), seqs(OPS, L - 1)
     mal = [s for n in range(1, 4) for s in seqs(OPS_MAL, n)
            if any(o in OPS_MAL[len(OPS):] for o in s)]
-    plan = [('device', 'S1', full), ('device', 'S6', short), ('device', 'S2', short),
-            ('device', 'S3', short), ('device', 'S4', short),
-            ('device_malformed', 'S5', mal), ('device_malformed', 'S1', mal)]
-    ctx.rule.append(f'B: every sequence of exactly {L} operations over READ type 1..5 / RESTORE -1,0,1,2 '
-                    f'on data set S1 (prefix-closed: every shorter sequence is a prefix), of length {L - 1} on '
-                    f'S2,S3 (conversions), S4 (empty part), S6 (one part); malformed stream: sequences of length '
-                    f'1..3 containing a type id 0/6 or a part index 3,-3,-4, on S1 and on a module without data; '
-                    f'every operation is executed (also after a trap); non-trivial = distinct result trace per data set')
+    if quick:
+        plan = [('device', 'S1', seqs(OPS, 4))] + \
+               [('device', n, seqs(OPS, 3)) for n in ('S6', 'S2', 'S3', 'S4')]
+        how = ('every sequence of exactly 4 operations on data set S1, of exactly 3 on S2,S3 (conversions), '
+               'S4 (an empty part), S6 (one part)')
+    else:
+        def sample(n, k):
+            return [[ctx.rng.choice(OPS) for _ in range(n)] for _ in range(k)]
+        plan = [('device', 'S1', seqs(OPS, 5)), ('device', 'S1', sample(6, 100000))]
+        for n in ('S6', 'S2', 'S3', 'S4'):
+            plan += [('device', n, seqs(OPS, 4)), ('device', n, sample(6, 20000))]
+        how = ('every sequence of exactly 5 operations on data set S1 and of exactly 4 on S2,S3 (conversions), '
+               'S4 (an empty part), S6 (one part), plus seeded samples of length 6 (100000 on S1, 20000 on each other)')
+    plan += [('device_malformed', 'S5', mal), ('device_malformed', 'S1', mal)]
+    ctx.rule.append(f'B: operations READ type 1..5 / RESTORE -1,0,1,2: {how} (prefix-closed: every shorter '
+                    f'sequence is a prefix); malformed stream: sequences of length 1..3 containing a type id 0/6 or a '
+                    f'part index 3,-3,-4, on S1 and on a module without data; every operation is executed (also after '
+                    f'a trap); non-trivial = distinct result trace per data set')
     t = time.time()
     suite_device(ctx, exe, plan)
     walls['device'] = round(time.time() - t, 1)
@@ -629,7 +640,7 @@ def main(tier, seed):
     # ---- C: programs
     lays, cases = build_programs(tier)
     how = (' (one of the six configurations per program, rotating)' if quick else
-           ' (all six for the layouts of the quick tier, two rotating for the larger ones; for the '
+           ' (all six for the layouts of the quick tier, one rotating for the larger ones; for the '
            'quick-tier layouts also every label style x code position at level 0)')
     ctx.rule.append(f'C: {len(lays)} layouts = every arrangement of 1..{3 if quick else 4} DATA statements and '
                     f'0..{2 if quick else 3} labels (each at module level or inside a SUB), each with the scripts '
